@@ -12,6 +12,13 @@ CLAIMED = {
             "are bound to cffi and the real loader by an strace of a real build and by real concurrent processes on every run.",
             "Scheduling points are FS operations and sleeps; the cffi builder and extension loader are stubs validated against strace; more than 4 requests or more than 3 preemptions are not explored.",
             "DESIGN.md §4 C14, §2.5, Appendix A"),
+    "C15": ("jit-explorer", "stateless model checking with fault/kill injection: every crash point and fault position of the real compile_forms x interleavings x later-request sequences",
+            "Every kill point of the builder (SIGKILL semantics) and every fault position (code generation, each builder step, marker creation) is crossed with every "
+            "preemption-bounded interleaving and the listed sequences of later requests on the real compile_forms code; lock-release, no-partial-load and outcome invariants "
+            "are evaluated in every state. Process-global state and SIGKILL behaviour are additionally re-enacted with real cffi / real processes for every failure kind and every real kill step.",
+            "Same trusted base as C14 (stub builder/loader bound by strace and real runs); fault budget <= 2, kill budget <= 2, later-request sequences <= 2 deep; "
+            "environment actors other than requests (a user cleaning the cache) are not modelled.",
+            "DESIGN.md §4 C15, §2.5, Appendix A"),
 }
 
 NOT_YET = "check not built yet in this session (planned, see DESIGN.md §8); not claimed until its command exists"
